@@ -520,8 +520,10 @@ impl ArchiveFooter {
         ))?;
 
         // Read files_info
+        // The serialized footer is `len` bytes long: nothing in it can be
+        // bigger, whatever its (untrusted) length fields announce
         let files_info: HashMap<String, FileInfo> = match bincode::options()
-            .with_limit(BINCODE_MAX_DESERIALIZE)
+            .with_limit(BINCODE_MAX_DESERIALIZE.min(len))
             .with_fixint_encoding()
             .deserialize_from(&mut src.take(len))
         {
